@@ -1,7 +1,7 @@
 ------------------------------ MODULE KernelMC ------------------------------
 (***************************************************************************)
 (* TLC walks the scenario space of spec/Kernel for the shipped kernel      *)
-(* (77 widths, 177 rows) and the 5-column user kernel (5 widths, 14 rows)  *)
+(* (77 widths, 177 rows) and the 5-column user kernels (5 widths, 14 rows) *)
 (* under every rotation 0..63 and checks that it is what the property      *)
 (* quantifies over: non-negative, non-zero weight vectors over valid       *)
 (* columns; grids inside the kernel rows with at least 4 points between    *)
@@ -14,11 +14,11 @@ VARIABLES kern, r, k
 vars == <<kern, r, k>>
 Dim(kn) == IF kn = "shipped" THEN <<77, 177>> ELSE <<5, 14>>
 
-Init == kern \in {"shipped", "user5"} /\ r \in 0..63 /\ k = 1
+Init == kern \in {"shipped", "user5", "user5b"} /\ r \in 0..63 /\ k = 1
 Next == k < NScen(Dim(kern)[1]) /\ k' = k + 1 /\ UNCHANGED <<kern, r>>
 Spec == Init /\ [][Next]_vars
 
-WTab == TLCEval([kn \in {"shipped", "user5"} |-> Weights(Dim(kn)[1])])
+WTab == TLCEval([kn \in {"shipped", "user5", "user5b"} |-> Weights(Dim(kn)[1])])
 S == Scenario(k, WTab[kern], Dim(kern)[2], r)
 WellFormed ==
    LET sc == TLCEval(S)
